@@ -14,6 +14,7 @@ import PenneModel.Decls.Order
 import PenneModel.Types.Ops
 import PenneModel.Mut.Model
 import PenneModel.Flat.Header
+import PenneModel.Flat.Parser
 /-
   Model driver: one request per line on stdin (`OP<TAB>payload`), one answer per line on stdout.
   Only model files are imported (no Mathlib, no proof files), so this links as a native executable.
@@ -194,6 +195,14 @@ def handle (op payload : String) : String :=
           (if Order.hasCycle edges then "1" else "0")
       | _, _ => "bad-request"
     | _ => "bad-request"
+  | "dparse" =>
+    -- comma-separated BaseToken names (with the two trailing EndOfSource)
+    match (payload.splitOn ",").mapM Flat.Kind.ofName with
+    | none => "bad-kind"
+    | some ts =>
+      let r := Flat.parseAll ts
+      let errs := r.errors.map (fun (e, pos) => s!"{(reprStr e).replace "Flat.PErr." ""}@{pos}")
+      s!"nodes={r.nodes.length} decls={r.decls} assert={r.assertFailed} fuel={r.outOfFuel} errors={",".intercalate errs} tags={",".intercalate (r.nodes.map Flat.Tag.name)}"
   | "header" =>
     match Sexp.parse payload with
     | some (.list ns) =>
